@@ -329,6 +329,22 @@ def one_case(case: Dict[str, Any]) -> Dict[str, Any]:
             target = wd / cfg.get("target_package_name", "graphql_client") if strategy == "client" else wd / cfg["target_file_path"]
             digests["regenerate-over-existing"] = ({"__failed__": str(rc)} if rc != 0 else
                                                    (digest_tree(target) if target.is_dir() else {target.name: hashlib.sha256(target.read_bytes()).hexdigest()}))
+        # regenerate over output that an OLDER RELEASE (or a hand edit) left there: every file of the existing target differs from what is generated now and is
+        # newer than every input and than the generator's own files - the result must still be what a fresh generation gives
+        wd = base / "seed1"
+        if "__failed__" not in digests["seed1"] and case["idx"] % 2 == 0:
+            target = wd / cfg.get("target_package_name", "graphql_client") if strategy == "client" else wd / cfg["target_file_path"]
+            import time as _time
+            future = _time.time() + 3600
+            for f_ in ([p_ for p_ in sorted(target.rglob("*")) if p_.is_file()] if target.is_dir() else [target]):
+                if f_.suffix.lower() in (".py", ".graphql", ".gql", ".graphqls"):
+                    f_.write_text(f_.read_text(encoding="utf-8") + "\n# left here by an older release\n", encoding="utf-8")
+                os.utime(f_, (future, future))
+            rc, log = run_generation(wd, strategy, "1")
+            out["stats"]["runs"] = out["stats"].get("runs", 0) + 1
+            out["stats"]["regenerations_over_older_output"] = out["stats"].get("regenerations_over_older_output", 0) + 1
+            digests["regenerate-over-older-output"] = ({"__failed__": str(rc)} if rc != 0 else
+                                                       (digest_tree(target) if target.is_dir() else {target.name: hashlib.sha256(target.read_bytes()).hexdigest()}))
         # ---- what the process did before must not matter: in ONE interpreter, first a decoy project with OTHER inputs under the same relative file names and the
         # same configuration, then the same inputs under a minimal configuration, then the project itself - twice, from the same loaded configuration object,
         # the second time over what the first wrote - as single files and as directories. The trees must equal the ones a fresh interpreter produced.
@@ -374,6 +390,7 @@ def one_case(case: Dict[str, Any]) -> Dict[str, Any]:
         groups = {"hash-seed": [k for k in digests if k.startswith("seed")], "file-creation-order": [k for k in digests if k.startswith("dir-")],
                   "hash-seed-directory-layout": ["dir-orderA"] + [k for k in digests if k.startswith("dirseed")],
                   "regenerate": ["seed0", "regenerate-over-existing"] if "regenerate-over-existing" in digests else [],
+                  "regenerate-over-older-output": ["seed0", "regenerate-over-older-output"] if "regenerate-over-older-output" in digests else [],
                   "process-history": ["seed0", "history-single"] if "history-single" in digests else [],
                   "process-history-directory-layout": ["dir-orderA", "history-dir"] if "history-dir" in digests else []}
         replay_case = dict(case)
@@ -393,8 +410,8 @@ def one_case(case: Dict[str, Any]) -> Dict[str, Any]:
                     try:
                         f = differing[0]
                         ta = base / labels[0] / (cfg.get("target_package_name", "graphql_client") if strategy == "client" else "") / f
-                        tb = base / (lab if lab != "regenerate-over-existing" else "seed0") / (cfg.get("target_package_name", "graphql_client") if strategy == "client" else "") / f
-                        if lab != "regenerate-over-existing" and ta.exists() and tb.exists():
+                        tb = base / ({"regenerate-over-existing": "seed0", "regenerate-over-older-output": "seed1"}.get(lab, lab)) / (cfg.get("target_package_name", "graphql_client") if strategy == "client" else "") / f
+                        if lab != "regenerate-over-existing" and ta.exists() and tb.exists():  # (for the older-output group: fresh seed0 tree vs what the regeneration left in seed1)
                             import difflib
                             detail += "\n" + "".join(list(difflib.unified_diff(ta.read_text().splitlines(True), tb.read_text().splitlines(True), "a/" + f, "b/" + f, n=1))[:30])
                     except Exception:  # noqa: BLE001
